@@ -195,6 +195,36 @@ def doc_level(ctx, n, cfgs):
     return cnt
 
 
+def api_level(ctx, n):
+    """The documented entry points with their defaults: mistune.html is NOT escaping by design; create_markdown() and
+    markdown() escape by default.  markdown() keeps converters in a cache keyed by its arguments: call it with escaping
+    off and on, in both orders, for the same renderer and plugins."""
+    import mistune
+    cnt = 0
+    plug_sets = [None, ["strikethrough"], ["table", "footnotes"], ["url", "abbr", "math"], ["spoiler", "ruby", "def_list", "task_lists"]]
+    for _ in range(n):
+        plugins = ctx.rng.choice(plug_sets)
+        seq = [ctx.rng.choice([False, True, None]) for _ in range(ctx.rng.randint(2, 4))]
+        for esc in seq:
+            tpl = ctx.rng.choice(DOC_TEMPLATES[:40])
+            doc = tpl.replace("{c}", ctx.rng.choice(CANARIES)).replace("{{", "{").replace("}}", "}") + "\n"
+            kw = {} if esc is None else {"escape": esc}
+            if plugins is not None:
+                kw["plugins"] = plugins
+            try:
+                out = mistune.markdown(doc, **kw)
+            except Exception:
+                continue
+            cnt += 1
+            if esc is False:
+                continue
+            bad, _ = analyse(out)
+            if bad and 'class="error"' not in out:
+                ctx.fail("inject-api:markdown()", "mistune.markdown(%r, %s) after the calls %r: input text reaches the output as markup (%s)" % (doc, kw, seq, bad[0]),
+                         {"config": {"api": "markdown", "kw": repr(kw), "sequence": repr(seq)}, "doc": doc, "output": out[:600]})
+    return cnt
+
+
 def replay_known(ctx):
     for k in ctx.known:
         ex = k.get("example") or {}
@@ -220,6 +250,7 @@ def run(ctx):
     n0 = tmpltie.stage(ctx, docs if q else docs[:3000], esc_cfgs + noesc)
     n1 = token_level(ctx, docs, esc_cfgs)
     n2 = doc_level(ctx, 5000 if q else 80000, esc_cfgs + noesc)
+    n2 += api_level(ctx, 150 if q else 3000)
     if ctx.broken and not [f for f in ctx.failures if not ctx.is_known(f["signature"])]:
         ctx.notes.append("search mode entered")
         n2 += doc_level(ctx, 60000, esc_cfgs + noesc)
